@@ -182,6 +182,52 @@ impl Edit {
     }
 }
 
+/// rename a type everywhere in the schema (definition, field types, union members, implements lists)
+fn rename_type(s: &mut ASchema, old: &str, new: &str) {
+    fn ty(t: &mut ATy, old: &str, new: &str) {
+        match t {
+            ATy::Named(n) => {
+                if n == old {
+                    *n = new.to_string()
+                }
+            }
+            ATy::List(i) | ATy::NonNull(i) => ty(i, old, new),
+        }
+    }
+    let fix = |n: &mut String| {
+        if n == old {
+            *n = new.to_string()
+        }
+    };
+    for t in s.types.iter_mut() {
+        match t {
+            AType::Scalar { name } | AType::Enum { name, .. } => fix(name),
+            AType::Object { name, implements, fields, ext_fields } => {
+                fix(name);
+                implements.iter_mut().for_each(fix);
+                fields.iter_mut().chain(ext_fields.iter_mut()).for_each(|f| ty(&mut f.ty, old, new));
+            }
+            AType::Interface { name, fields } => {
+                fix(name);
+                fields.iter_mut().for_each(|f| ty(&mut f.ty, old, new));
+            }
+            AType::Union { name, members } => {
+                fix(name);
+                members.iter_mut().for_each(fix);
+            }
+            AType::Input { name, fields, .. } => {
+                fix(name);
+                fields.iter_mut().for_each(|f| ty(&mut f.1, old, new));
+            }
+        }
+    }
+    for r in [&mut s.query, &mut s.mutation, &mut s.subscription] {
+        if r.as_deref() == Some(old) {
+            *r = Some(new.to_string());
+        }
+    }
+}
+
 /// a composite type whose possible types do not intersect `parent`'s (and which is not `parent`)
 fn disjoint_type(s: &ASchema, parent: &str, pick: usize) -> Option<String> {
     let pp = s.possible_types(parent);
@@ -398,9 +444,19 @@ pub fn apply(s: &ASchema, doc: &ADoc, edit: Edit, pos: Option<&Pos>, op_idx: usi
             }
             let root = s.subscription.clone()?;
             let fields = s.fields_of(&root);
-            let f = fields.iter().find(|f| !s.is_composite(f.ty.base()))?;
-            op.sels.push(ASel::Field { alias: Some("secondRoot".into()), name: f.name.clone(), sub: vec![] });
-            desc = "second root field added to a subscription".to_string();
+            // either another (leaf) field, or the SAME root field once more under a second response key
+            let same = op.sels.iter().find_map(|x| if let ASel::Field { name, sub, .. } = x { Some((name.clone(), sub.clone())) } else { None });
+            match (pick % 2 == 1, same) {
+                (true, Some((name, sub))) => {
+                    op.sels.push(ASel::Field { alias: Some("secondRoot".into()), name, sub });
+                    desc = "the subscription's root field selected a second time under another alias".to_string();
+                }
+                _ => {
+                    let f = fields.iter().find(|f| !s.is_composite(f.ty.base()))?;
+                    op.sels.push(ASel::Field { alias: Some("secondRoot".into()), name: f.name.clone(), sub: vec![] });
+                    desc = "second root field added to a subscription".to_string();
+                }
+            }
         }
         Edit::SubscriptionRootViaFragment => {
             let root = s.subscription.clone()?;
@@ -409,9 +465,16 @@ pub fn apply(s: &ASchema, doc: &ADoc, edit: Edit, pos: Option<&Pos>, op_idx: usi
                 return None;
             }
             let fields = s.fields_of(&root);
-            let f = fields.iter().find(|f| !s.is_composite(f.ty.base()))?;
             let mut fsels = std::mem::take(&mut op.sels);
-            fsels.push(ASel::Field { alias: Some("secondRoot".into()), name: f.name.clone(), sub: vec![] });
+            let same = fsels.iter().find_map(|x| if let ASel::Field { name, sub, .. } = x { Some((name.clone(), sub.clone())) } else { None });
+            match (pick % 2 == 1, same) {
+                // the same schema field twice, under two response keys: still two root fields
+                (true, Some((name, sub))) => fsels.push(ASel::Field { alias: Some("secondRoot".into()), name, sub }),
+                _ => {
+                    let f = fields.iter().find(|f| !s.is_composite(f.ty.base()))?;
+                    fsels.push(ASel::Field { alias: Some("secondRoot".into()), name: f.name.clone(), sub: vec![] });
+                }
+            }
             op.sels = vec![ASel::Spread { name: "SubscriptionRootFields".into() }];
             d.frags.push(AFrag { name: "SubscriptionRootFields".into(), on: root, sels: fsels });
             desc = "subscription root selection moved into a fragment selecting two fields".to_string();
@@ -453,18 +516,17 @@ pub fn apply(s: &ASchema, doc: &ADoc, edit: Edit, pos: Option<&Pos>, op_idx: usi
         }
         Edit::MissingRootType => {
             let op = d.ops.get(op_idx)?;
-            match op.kind {
-                "mutation" => {
-                    let r = schema.mutation.take()?;
-                    // keep the type, drop the root designation: needs an explicit schema block
-                    let _ = r;
-                }
-                "subscription" => {
-                    let _ = schema.subscription.take()?;
-                }
+            // the former root type stays in the schema as an ordinary object AND carries the conventional
+            // name (`Mutation` / `Subscription`): the explicit `schema { }` block simply does not list it
+            let (old, default_name) = match op.kind {
+                "mutation" => (schema.mutation.take()?, "Mutation"),
+                "subscription" => (schema.subscription.take()?, "Subscription"),
                 _ => return None,
+            };
+            if old != default_name && schema.get(default_name).is_none() {
+                rename_type(&mut schema, &old, default_name);
             }
-            desc = format!("schema no longer designates a root type for the {} operation", op.kind);
+            desc = format!("schema no longer designates a root type for the {} operation (the former root type is an ordinary object named {})", op.kind, default_name);
         }
     }
     Some((schema, d, desc))
